@@ -91,6 +91,11 @@ def rule_header_table(ctx, px):
     for n in ast.walk(rd.node):
         if isinstance(n, ast.Assign) and isinstance(n.targets[0], ast.Attribute) and unparse(n.targets[0].value) == "self":
             v = strip_casts(n.value)
+            if isinstance(v, ast.Name):
+                # a typed local decoded once and stored (and reused) later
+                ds = [x for x in ast.walk(rd.node) if isinstance(x, ast.Assign) and len(x.targets) == 1 and isinstance(x.targets[0], ast.Name) and x.targets[0].id == v.id]
+                if len(ds) == 1:
+                    v = strip_casts(ds[0].value)
             if isinstance(v, ast.Call) and call_attr(v) in WIDTH and v.args:
                 a = strip_casts(v.args[0])
                 if isinstance(a, ast.Call) and a.args and isinstance(a.args[0], ast.Subscript) and isinstance(a.args[0].slice, ast.Constant):
@@ -132,8 +137,14 @@ def rule_header_table(ctx, px):
             if name in V2_SOURCES:
                 ctx.ob(R, pw, v, V2_SOURCES[name].lstrip("_") in unparse(v).replace("self._", "").replace("self.", "") or V2_SOURCES[name] in unparse(v),
                        f"python writer fills {name} from `{unparse(v)}`, expected the builder's {V2_SOURCES[name]}", text=f"py-writer-source:{name}")
-        lv = unparse(vals[1]).replace(" ", "")
-        ctx.ob(R, pw, vals[1], lv == "batch_len-self.AFTER_LEN_OFFSET" and "batch_len = len(self._buffer)" in unparse(pw.node), f"python writer's length field is `{lv}`", text="py-writer-length")
+        # the length field counts the bytes after it: len(buffer) - AFTER_LEN_OFFSET, with or without explaining locals
+        class _Res(ast.NodeTransformer):
+            def visit_Name(self, n):
+                if isinstance(n.ctx, ast.Load):
+                    return ast.parse(_resolve_local(pw.node, n), mode="eval").body
+                return n
+        lv = unparse(_Res().visit(ast.parse(unparse(vals[1]), mode="eval").body)).replace(" ", "")
+        ctx.ob(R, pw, vals[1], lv == "len(self._buffer)-self.AFTER_LEN_OFFSET", f"python writer's length field is `{lv}`, expected len(self._buffer) - self.AFTER_LEN_OFFSET", text="py-writer-length")
     # legacy headers: python structs and the compiled reader's offsets
     envl = ConstEnv(ctx.repo.module(PYL).tree, "LegacyRecordBase")
     fl = ctx.fn(f"{PYL}._LegacyRecordBatchPy._read_header")
@@ -236,6 +247,25 @@ def _shape(ops):
     return "".join(out)
 
 
+def _null_guard(s, body, orelse):
+    """For a nullable field `if T: <N> else: <VR>` (either way round): '' when T is exactly `X is None` / `X is not None` with the
+    null marker in the None arm and X the object whose bytes the other arm writes; otherwise a marker that breaks the shape.
+    (A truthiness test writes the EMPTY byte string as null: b"" and None are different values on the wire.)"""
+    if {body, orelse} != {"N", "VR"}:
+        return ""
+    t = s.test
+    if not (isinstance(t, ast.Compare) and len(t.ops) == 1 and isinstance(t.ops[0], (ast.Is, ast.IsNot)) and isinstance(t.left, ast.Name)
+            and isinstance(t.comparators[0], ast.Constant) and t.comparators[0].value is None):
+        return f"?guard({unparse(t)[:30]})"
+    none_arm = s.body if isinstance(t.ops[0], ast.Is) else s.orelse
+    data_arm = s.orelse if isinstance(t.ops[0], ast.Is) else s.body
+    if (body if none_arm is s.body else orelse) != "N":
+        return f"?null-marker-in-wrong-arm({unparse(t)[:30]})"
+    if not any(isinstance(n, ast.Name) and n.id == t.left.id for st in data_arm for n in ast.walk(st)):
+        return f"?guard-on-other-object({unparse(t)[:30]})"
+    return ""
+
+
 def _writer_shape_py(fn):
     """encode_varint(...)/write(x)/write_byte(c) sequence of the Python v2 writer's record body."""
     out = []
@@ -250,6 +280,8 @@ def _writer_shape_py(fn):
                     out.append("R")
                 elif f == "write_byte":
                     out.append("N")   # the one byte null marker (varint -1)
+                elif f.endswith(".extend") and len(s.value.args) == 1:
+                    out.append("X")   # the finished record copied into the batch buffer
             elif isinstance(s, ast.If):
                 a, b = len(out), None
                 visit(s.body)
@@ -258,7 +290,7 @@ def _writer_shape_py(fn):
                 visit(s.orelse)
                 orelse = out[a:]
                 del out[a:]
-                out.append("(" + "|".join(sorted(["".join(body), "".join(orelse)])) + ")")   # arms in canonical order: which arm is the `if` is immaterial
+                out.append("(" + "|".join(sorted(["".join(body), "".join(orelse)])) + ")" + _null_guard(s, "".join(body), "".join(orelse)))   # arms in canonical order: which arm is the `if` is immaterial
             elif isinstance(s, ast.For):
                 out.append("[")
                 visit(s.body)
@@ -292,7 +324,7 @@ def _writer_shape_pyx(fn):
                 orelse = out[a:]
                 del out[a:]
                 if body or orelse:
-                    out.append("(" + "|".join(sorted(["".join(body), "".join(orelse)])) + ")")   # arms in canonical order: which arm is the `if` is immaterial
+                    out.append("(" + "|".join(sorted(["".join(body), "".join(orelse)])) + ")" + _null_guard(s, "".join(body), "".join(orelse)))   # arms in canonical order: which arm is the `if` is immaterial
             elif isinstance(s, ast.For):
                 out.append("[")
                 visit(s.body)
@@ -322,7 +354,15 @@ def rule_record_grammar(ctx, px):
     core = sh
     while "(|)" in core:
         core = core.replace("(|)", "")
-    ctx.ob(R, pw, pw.node, core.startswith(want_py) and core[len(want_py):] in ("V", "(|)V", "V()"), f"python writer's element sequence is {core}, expected {want_py} then the length varint", text="py-writer")
+    ctx.ob(R, pw, pw.node, core.startswith(want_py) and core[len(want_py):] in ("VX", "(|)VX", "V()X"), f"python writer's element sequence is {core}, expected {want_py} then the length varint and the copy of the record into the batch buffer", text="py-writer")
+    # the copy appends exactly the buffer the record was encoded into, to the batch buffer the length varint went to
+    exts = [x for x in ast.walk(pw.node) if isinstance(x, ast.Call) and isinstance(x.func, ast.Attribute) and x.func.attr == "extend" and len(x.args) == 1 and isinstance(x.args[0], ast.Name)]
+    wdef = [x for x in ast.walk(pw.node) if isinstance(x, ast.Assign) and len(x.targets) == 1 and unparse(x.targets[0]) == "write" and isinstance(x.value, ast.Attribute) and x.value.attr == "extend"]
+    lenv = [x for x in ast.walk(pw.node) if isinstance(x, ast.Call) and unparse(x.func) == "encode_varint" and len(x.args) == 2 and isinstance(x.args[1], ast.Attribute) and x.args[1].attr == "append"
+            and not (isinstance(x.args[1].value, ast.Name) and wdef and unparse(x.args[1].value) == unparse(wdef[0].value.value))]
+    okx = len(exts) == 1 and len(wdef) == 1 and exts[0].args[0].id == unparse(wdef[0].value.value) and len(lenv) == 1 and unparse(lenv[0].args[1].value) == unparse(exts[0].func.value) \
+        and _resolve_local(pw.node, exts[0].func.value) == "self._buffer"
+    ctx.ob(R, pw, pw.node, okx, "python writer: the encoded record is not appended (length varint, then the record's own buffer) to the batch buffer", text="py-writer-copies-record")
     cw = px.fn(f"{DEF}.DefaultRecordBatchBuilder._encode_msg")
     sh = _writer_shape_pyx(cw.node)
     while "(|)" in sh:
@@ -340,6 +380,131 @@ def rule_record_grammar(ctx, px):
             ob(ctx, R, fi, fi.node.lineno, "length-verified", okl, "the reader does not verify the record's declared length against the bytes it consumed")
         else:
             ctx.ob(R, fi, fi.node, okl, "the reader does not verify the record's declared length against the bytes it consumed", text="length-verified")
+
+
+def rule_legacy_crc(ctx, px):
+    R = "crc-order"
+    # v0/v1 writers: CRC-32 over [magic byte .. end of the message], computed after every other field of the message was written, stored
+    # as uint32 at the CRC offset; the v0 layout has no timestamp field, the v1 layout has one
+    pw = ctx.fn(f"{PYL}._LegacyRecordBatchBuilderPy._encode_msg")
+    c = ctx.cfg(pw)
+    crc = c.calls(name="crc32")
+    pk = [n for n in c.nodes if n.kind == "call" and call_attr(n.ast) == "pack_into"]
+    ctx.anchor(len(crc) == 1 and len(pk) >= 2, "crc32 / pack_into calls in the legacy Python writer")
+    reg = crc[0].ast.args[0]
+    inner = reg.value if isinstance(reg, ast.Subscript) else None
+    if isinstance(inner, ast.Call) and unparse(inner.func) == "memoryview" and inner.args:
+        inner = inner.args[0]
+    bufp = pw.params()[1] if len(pw.params()) > 1 else "buf"
+    reg_ok = isinstance(reg, ast.Subscript) and isinstance(reg.slice, ast.Slice) and reg.slice.upper is None and reg.slice.step is None and reg.slice.lower is not None \
+        and unparse(reg.slice.lower) == "self.MAGIC_OFFSET" and inner is not None and unparse(inner) == "buf"
+    store = [n for n in pk if c.path_exists(crc[0], n, exc=False)]
+    body_packs = [n for n in pk if n not in store]
+    ok = reg_ok and len(store) == 1 and len(body_packs) == 2 and all(c.path_exists(b, crc[0], exc=False) and not c.path_exists(crc[0], b, exc=False) for b in body_packs) \
+        and unparse(store[0].ast.args[0]) == "'>I'" and unparse(store[0].ast.args[1]) == "buf" and unparse(store[0].ast.args[2]) == "self.CRC_OFFSET" \
+        and isinstance(crc[0].stmt, ast.Assign) and unparse(store[0].ast.args[3]) == unparse(crc[0].stmt.targets[0]) and c.exit not in c.reachable([c.entry], avoid=set(store), exc=False)
+    ctx.ob(R, pw, crc[0], ok, "legacy python writer: CRC not computed over [MAGIC_OFFSET:] after the message was written / not stored as uint32 at CRC_OFFSET on every path", text="py-legacy-crc")
+    # layout by magic
+    from ..rulekit import must_facts
+    arms = {}
+    for b in body_packs:
+        f_ = must_facts(c)[b]
+        v0 = any(a[1] == "==" and {a[0], a[2]} >= {"0"} and ("magic" in a[0] or "magic" in a[2]) for a in f_)
+        v1 = any((a[1] == "!=" and {a[0], a[2]} >= {"0"} or a[1] == "==" and {a[0], a[2]} >= {"1"}) and ("magic" in a[0] or "magic" in a[2]) for a in f_)
+        arms["v0" if v0 else "v1" if v1 else "?"] = b
+    okl = set(arms) == {"v0", "v1"}
+    if okl:
+        n0, n1 = len(arms["v0"].ast.args), len(arms["v1"].ast.args)
+        t0 = any(isinstance(x, ast.Name) and x.id == "timestamp" for x in ast.walk(arms["v0"].ast))
+        t1 = any(isinstance(x, ast.Name) and x.id == "timestamp" for x in arms["v1"].ast.args)
+        okl = n1 == n0 + 1 and t1 and not t0
+    ctx.ob(R, pw, pw.node, okl, "legacy python writer: the v0 layout (no timestamp) is not written exactly for magic 0 and the v1 layout (with timestamp) otherwise", text="py-legacy-layout")
+    cw = px.fn(f"{LEG}._encode_msg")
+    fb = FnBounds(cw)
+    cc = fb.cfg
+    crc = [n for n in cc.nodes if n.kind == "call" and call_attr(n.ast) == "calc_crc32"]
+    packs = [n for n in cc.nodes if n.kind == "call" and call_attr(n.ast) in ("pack_int64", "pack_int32", "pack_int16")]
+    ctx.anchor(len(crc) == 1 and len(packs) >= 5, "calc_crc32 / pack calls in the compiled legacy writer")
+    after = [p_ for p_ in packs if cc.path_exists(crc[0], p_, exc=False)]
+    a = [unparse(strip_casts(x)).replace(" ", "") for x in crc[0].ast.args]
+    # DEF constants are folded by the parser: compare with the folded offsets (CRC at +12, magic at +16)
+    tgt = unparse(strip_casts(after[0].ast.args[0])).replace(" ", "") if after else ""
+    okc = len(after) == 1 and tgt in ("__addr__(buf[start_pos+12])", "__addr__(buf[12+start_pos])") and "crc" in unparse(after[0].ast.args[1]) \
+        and a[1] in ("__addr__(buf[start_pos+16])", "__addr__(buf[16+start_pos])") and a[2] in ("pos-(start_pos+16)", "(pos-(start_pos+16))", "pos-start_pos-16")
+    ob(ctx, R, cw, crc[0].lineno, "pyx-legacy-crc", okc, f"compiled legacy writer checksums {a[1]} .. {a[2]} and stores at {tgt}; expected [start+16 : pos] stored at start+12 after every other field")
+    ts = [p_ for p_ in packs if "start_pos+18" in unparse(strip_casts(p_.ast.args[0])).replace(" ", "")]
+    f1 = must_facts(cc)[ts[0]] if ts else frozenset()
+    ob(ctx, R, cw, cw.node.lineno, "pyx-legacy-layout", len(ts) == 1 and any(a_[1] == "==" and {a_[0], a_[2]} == {"magic", "1"} or a_[1] == "!=" and {a_[0], a_[2]} == {"magic", "0"} for a_ in f1),
+       "compiled legacy writer: the timestamp field is not written exactly for magic 1")
+
+
+def _names(e):
+    return {x.id for x in ast.walk(e) if isinstance(x, ast.Name)}
+
+
+def rule_reader_result(ctx, px):
+    R = "record-grammar"
+    # what the two v2 readers DO with the elements they decode (the element sequence itself is checked above): the n-th varint feeds
+    # the n-th field, the record handed out is built from exactly those locals, headers are collected once per iteration, and the
+    # cursor is written back so that the next record starts where this one ended
+    for fi, is_px in ((ctx.fn(f"{PYD}._DefaultRecordBatchPy._read_msg"), False), (px.fn(f"{DEF}.DefaultRecordBatch._read_msg"), True)):
+        def report(node, key, ok, msg):
+            if is_px:
+                ob(ctx, R, fi, getattr(node, "lineno", fi.node.lineno), key, ok, msg)
+            else:
+                ctx.ob(R, fi, node, ok, msg, text=key)
+        ops = (_reader_ops_pyx if is_px else _reader_ops_py)(fi.node)
+        var = [nm for k, nm, _l in ops if k == "varint"]
+        ctx.anchor(len(var) == 9, f"nine varints in {fi.qualname}")
+        body = list(flatten_const_ifs(fi.node.body))
+        rets = [x for x in ast.walk(fi.node) if isinstance(x, ast.Return) and isinstance(x.value, ast.Call)]
+        ctx.anchor(len(rets) == 1, f"one record constructor return in {fi.qualname}")
+        call = rets[0].value
+        args = [unparse(strip_casts(a)) for a in call.args]
+        ok_args = len(args) == 6 and all(isinstance(strip_casts(a), ast.Name) for i, a in enumerate(call.args) if i != 2)
+        report(rets[0], "record-args", ok_args, f"the record is built from {args}, expected six positional fields (offset, timestamp, timestamp type, key, value, headers)")
+        if not ok_args:
+            continue
+        n_off, n_ts, _tt, n_key, n_val, n_hdr = args
+
+        def defs_of(nm):
+            out = [x for x in ast.walk(fi.node) if isinstance(x, ast.Assign) and len(x.targets) == 1 and isinstance(x.targets[0], ast.Name) and x.targets[0].id == nm]
+            out += [x for x in ast.walk(fi.node) if isinstance(x, ast.AnnAssign) and x.value is not None and isinstance(x.target, ast.Name) and x.target.id == nm]
+            return out
+        # offset = base_offset + 4th varint ; timestamp: max_timestamp | first_timestamp + 3rd varint
+        d = defs_of(n_off)
+        report(rets[0], "offset-from-delta", len(d) == 1 and var[3] in _names(d[0].value) and "self.base_offset" in unparse(d[0].value) and isinstance(d[0].value, ast.BinOp) and isinstance(d[0].value.op, ast.Add),
+               f"the record's offset is not base_offset + the offset-delta varint (`{unparse(d[0].value) if d else '?'}`)")
+        d = defs_of(n_ts)
+        txt = sorted(unparse(x.value) for x in d)
+        report(rets[0], "timestamp-from-delta", len(d) == 2 and any(t == "self.max_timestamp" for t in txt) and
+               any(isinstance(x.value, ast.BinOp) and isinstance(x.value.op, ast.Add) and "self.first_timestamp" in unparse(x.value) and var[2] in _names(x.value) for x in d),
+               f"the record's timestamp is not max_timestamp (log-append time) / first_timestamp + the timestamp-delta varint ({txt})")
+        # key / value: data arm reads the length given by the 5th / 6th varint
+        for nm, lv, what in ((n_key, var[4], "key"), (n_val, var[5], "value")):
+            d = [x for x in defs_of(nm) if not (isinstance(x.value, ast.Constant) and x.value.value is None)]
+            report(rets[0], f"{what}-from-length", len(d) == 1 and lv in _names(d[0].value), f"the record's {what} is not the bytes sized by its own length varint `{lv}`")
+        # headers
+        loops = [x for x in ast.walk(fi.node) if isinstance(x, (ast.While, ast.For))]
+        apps = [x for lp in loops for x in ast.walk(lp) if isinstance(x, ast.Call) and call_attr(x) == "append" and unparse(x.func.value) == n_hdr]
+        ok_h = len(apps) == 1 and len(apps[0].args) == 1 and isinstance(apps[0].args[0], ast.Tuple) and len(apps[0].args[0].elts) == 2
+        if ok_h:
+            hk, hv = apps[0].args[0].elts
+            dk = [x for x in defs_of(next(iter(_names(hk)), "")) ]
+            dv = [x for x in defs_of(unparse(hv)) if not (isinstance(x.value, ast.Constant) and x.value.value is None)]
+            ok_h = len(dk) == 1 and var[7] in _names(dk[0].value) and len(dv) == 1 and var[8] in _names(dv[0].value)
+            # once per iteration: the append is a top-level statement of the loop body
+            lp = [l for l in loops if any(x is apps[0] for x in ast.walk(l))][-1]
+            ok_h = ok_h and any(isinstance(st, ast.Expr) and st.value is apps[0] for st in lp.body)
+        report(rets[0], "headers-collected", ok_h, "the header loop does not append exactly one (key, value) pair per iteration built from that iteration's two length varints")
+        hd = defs_of(n_hdr)
+        report(rets[0], "headers-fresh", len(hd) == 1 and isinstance(hd[0].value, (ast.List, ast.Call)) and not any(x is hd[0] for lp in loops for x in ast.walk(lp)),
+               "the headers list is not a fresh list created once before the header loop")
+        # cursor written back before the return
+        st = [x for x in body if isinstance(x, ast.Assign) and unparse(x.targets[0]) == "self._pos"]
+        cur = "pos"
+        report(rets[0], "cursor-written-back", len(st) == 1 and unparse(st[0].value) == cur and body.index(st[0]) < body.index(rets[0]) if rets[0] in body else False,
+               "the cursor after the record is not stored to self._pos before the record is returned: the next record would be decoded from the same bytes")
 
 
 def rule_crc_order(ctx, px):
@@ -362,7 +527,12 @@ def rule_crc_order(ctx, px):
     crc = c.calls(name="calc_crc32c")
     pk = [n for n in c.nodes if n.kind == "call" and call_attr(n.ast) == "pack_into"]
     ctx.anchor(len(crc) == 1 and len(pk) == 2, "calc_crc32c / pack_into in the Python writer")
-    ok = c.dominates(pk[0], crc[0]) and c.dominates(crc[0], pk[1]) and unparse(crc[0].ast.args[0]) == "self._buffer[self.ATTRIBUTES_OFFSET:]" \
+    def _rs(e):
+        return _resolve_local(pw.node, e) if isinstance(e, ast.Name) else unparse(e)
+    reg = crc[0].ast.args[0]
+    reg_ok = isinstance(reg, ast.Subscript) and isinstance(reg.slice, ast.Slice) and reg.slice.upper is None and reg.slice.step is None and reg.slice.lower is not None \
+        and unparse(reg.slice.lower) == "self.ATTRIBUTES_OFFSET" and _rs(reg.value) == "self._buffer"
+    ok = c.dominates(pk[0], crc[0]) and c.dominates(crc[0], pk[1]) and reg_ok and _rs(pk[1].ast.args[1]) == "self._buffer" and _rs(pk[0].ast.args[0]) == "self._buffer" \
         and unparse(pk[1].ast.args[2]) == "self.CRC_OFFSET" and unparse(pk[1].ast.args[0]) == "'>I'"
     ctx.ob(R, pw, crc[0], ok, "python writer: CRC not computed over [ATTRIBUTES_OFFSET:] after the header fields / not stored as uint32 at CRC_OFFSET", text="py-crc")
     for q, is_px in ((f"{PYD}._DefaultRecordBatchBuilderPy.build", False), (f"{DEF}.DefaultRecordBatchBuilder.build", True)):
@@ -956,6 +1126,129 @@ def rule_legacy_append_atomic(ctx):
     ctx.ob(R, fi, fi.node, ok, "a refused record (`return None`) can follow a write to the builder", text="legacy-refuse-pure")
 
 
+def _is_null_marker(n):
+    """A call that writes the wire's null length: an argument that is the literal -1, or write_byte(zero_len_varint)."""
+    if not isinstance(n, ast.Call):
+        return False
+    if call_attr(n) == "write_byte" or unparse(n.func) == "write_byte":
+        return any(isinstance(a, ast.Name) and a.id == "zero_len_varint" for a in n.args)
+    for a in n.args:
+        a = strip_casts(a)
+        if unparse(a) == "-1":
+            return True
+    return False
+
+
+def _direct(nodes):
+    """Sub-nodes of the statements/expressions not below a nested If / IfExp."""
+    todo = list(nodes)
+    while todo:
+        n = todo.pop()
+        yield n
+        for ch in ast.iter_child_nodes(n):
+            if not isinstance(ch, (ast.If, ast.IfExp)):
+                todo.append(ch)
+
+
+def rule_null_is_none(ctx, px):
+    R = "null-iff-none"
+    ctx.rep.rule(R, "all four record writers (v0/v1 and v2, Python and compiled) emit the wire's null length (-1; the one-byte varint 0x01 in v2) "
+                    "for a key, value or header value exactly when the object IS None: the guard of every null marker is `X is None` / "
+                    "`X is not None`, never truthiness -- the empty byte string b\"\" is a value of length 0, distinct from null, and both readers "
+                    "return it as b\"\"")
+    sites = 0
+    for fi, is_px in ((ctx.fn(f"{PYD}._DefaultRecordBatchBuilderPy.append"), False), (ctx.fn(f"{PYL}._LegacyRecordBatchBuilderPy._encode_msg"), False),
+                      (px.fn(f"{DEF}.DefaultRecordBatchBuilder._encode_msg"), True), (px.fn(f"{LEG}._encode_msg"), True)):
+        def report(node, ok, msg, key):
+            if is_px:
+                ob(ctx, R, fi, getattr(node, "lineno", fi.node.lineno), key, ok, msg)
+            else:
+                ctx.ob(R, fi, node, ok, msg, text=key)
+        n_here = 0
+        for n in ast.walk(fi.node):
+            if isinstance(n, ast.If):
+                arms = (n.body, n.orelse)
+                mk_ = [any(_is_null_marker(x) for x in _direct(a)) for a in arms]
+            elif isinstance(n, ast.IfExp):
+                arms = ([n.body], [n.orelse])
+                mk_ = [unparse(strip_casts(a[0])) == "-1" for a in arms]
+                # only an IfExp that is the argument of a pack call is a wire length
+            else:
+                continue
+            if mk_[0] == mk_[1]:
+                if mk_[0]:
+                    report(n, False, f"both arms of `{unparse(n.test)[:40]}` write the null length", f"null-guard:{n_here}")
+                continue
+            n_here += 1
+            sites += 1
+            t = n.test
+            exact = (isinstance(t, ast.Compare) and len(t.ops) == 1 and isinstance(t.ops[0], (ast.Is, ast.IsNot)) and isinstance(t.left, ast.Name)
+                     and isinstance(t.comparators[0], ast.Constant) and t.comparators[0].value is None)
+            ok = exact and (mk_[0] if isinstance(t.ops[0], ast.Is) else mk_[1])
+            report(n, ok, f"the null length (-1) is written under `{unparse(t)[:40]}`, not exactly when the object is None: an empty key/value (b\"\") "
+                          "would be sent as null and come back as None", f"null-guard:{unparse(t.left) if exact else n_here}:{n_here}")
+        ctx.anchor(n_here >= 2, f"null-length sites in {fi.qualname} ({n_here})")
+    ctx.anchor(sites >= 12, f"null-length sites in the four writers ({sites})")
+    # readers: the field is None exactly when the decoded length is negative (-1)
+    rsites = 0
+    for fi, is_px in ((ctx.fn(f"{PYD}._DefaultRecordBatchPy._read_msg"), False), (ctx.fn(f"{PYL}._LegacyRecordBatchPy._read_key_value"), False),
+                      (px.fn(f"{DEF}.DefaultRecordBatch._read_msg"), True), (px.fn(f"{LEG}.LegacyRecordBatch._read_record"), True)):
+        n_here = 0
+        # the reader and the module-level / sibling helpers it calls (a nullable field may be decoded by a shared helper)
+        scope = [fi.node]
+        weight = {}
+        if is_px:
+            called = [call_attr(x) or (x.func.id if isinstance(x.func, ast.Name) else None) for x in ast.walk(fi.node) if isinstance(x, ast.Call)]
+            for q2, f2 in px.funcs.items():
+                if f2 is not fi and f2.module is fi.module and f2.name in called and f2.name not in ("_check_bounds", "new"):
+                    scope.append(f2.node)
+                    weight[id(f2.node)] = called.count(f2.name)      # one site in a helper decodes one field per call
+        for n, w_ in [(y, weight.get(id(sc), 1)) for sc in scope for y in ast.walk(sc)]:
+            if not isinstance(n, ast.If):
+                continue
+            def none_assigned(arm):
+                return {unparse(x.targets[0]) for x in _direct(arm) if isinstance(x, ast.Assign) and len(x.targets) == 1 and isinstance(x.targets[0], ast.Name)
+                        and isinstance(x.value, ast.Constant) and x.value.value is None}
+            def data_assigned(arm):
+                return {unparse(x.targets[0]) for x in _direct(arm) if isinstance(x, ast.Assign) and len(x.targets) == 1 and isinstance(x.targets[0], ast.Name)
+                        and not (isinstance(x.value, ast.Constant) and x.value.value is None)} | \
+                       {unparse(x.target) for x in _direct(arm) if isinstance(x, ast.AnnAssign) and x.value is not None and isinstance(x.target, ast.Name)
+                        and not (isinstance(x.value, ast.Constant) and x.value.value is None)}
+            a_none, b_none = none_assigned(n.body), none_assigned(n.orelse)
+            # `x = None` before the test and an assignment in one arm only is the same decision written with a default
+            dflt = {unparse(x.targets[0] if isinstance(x, ast.Assign) else x.target) for sc in scope for x in ast.walk(sc)
+                    if ((isinstance(x, ast.Assign) and len(x.targets) == 1) or (isinstance(x, ast.AnnAssign) and x.value is not None))
+                    and isinstance(x.value, ast.Constant) and x.value.value is None and x.lineno < n.lineno}
+            a_none |= (dflt & data_assigned(n.orelse)) - data_assigned(n.body)
+            b_none |= (dflt & data_assigned(n.body)) - data_assigned(n.orelse)
+            fld = (a_none & data_assigned(n.orelse)) or (b_none & data_assigned(n.body))
+            if not fld:
+                continue
+            n_here += w_
+            rsites += w_
+            none_in_body = bool(a_none & data_assigned(n.orelse))
+            t = n.test
+            ok = False
+            if isinstance(t, ast.Compare) and len(t.ops) == 1 and isinstance(strip_casts(t.left), ast.Name):
+                try:
+                    cv = int(unparse(strip_casts(t.comparators[0])))
+                except ValueError:
+                    cv = None
+                form = (type(t.ops[0]).__name__, cv)
+                none_forms = {("Lt", 0), ("LtE", -1), ("Eq", -1)}
+                data_forms = {("GtE", 0), ("Gt", -1), ("NotEq", -1)}
+                ok = form in (none_forms if none_in_body else data_forms)
+            msg = (f"`{sorted(fld)[0]}` is None under `{unparse(t)[:40]}` ({'if' if none_in_body else 'else'} arm), not exactly when the decoded length is negative: "
+                   "a zero-length key/value would be returned as None (or a null one as b\"\")")
+            key = f"null-read:{sorted(fld)[0]}:{n_here}"
+            if is_px:
+                ob(ctx, R, fi, n.lineno, key, ok, msg)
+            else:
+                ctx.ob(R, fi, n, ok, msg, text=key)
+        ctx.anchor(n_here >= 2, f"nullable-field sites in reader {fi.qualname} ({n_here})")
+    ctx.anchor(rsites >= 10, f"nullable-field sites in the four readers ({rsites})")
+
+
 def run(ctx):
     rep = ctx.rep
     rep.explanation = ("C09: the shape-level part of codec agreement: header layout stated five times and compared with the format's reference "
@@ -965,7 +1258,9 @@ def run(ctx):
     rule_header_table(ctx, px)
     rule_consts(ctx, px)
     rule_record_grammar(ctx, px)
+    rule_reader_result(ctx, px)
     rule_crc_order(ctx, px)
+    rule_legacy_crc(ctx, px)
     rule_splitter(ctx, px)
     rule_crc_table(ctx)
     rule_refuse_pure(ctx, px)
@@ -974,6 +1269,7 @@ def run(ctx):
     rule_mask_compare(ctx, px)
     rule_xerial(ctx)
     rule_size_accounting(ctx, px)
+    rule_null_is_none(ctx, px)
     rep.nd("value-level round-trip for all record sequences (varint arithmetic, timestamps beyond int32 deltas, compression codecs)")
     rep.nd("byte-identical output of the two builders (they differ by design at the batch-size boundary and in the compression fallback)")
     rep.nd("the fixed parts of size accounting (record overhead constants, estimate slack)")
